@@ -33,6 +33,7 @@ from gemseo.core.mdo_functions.mdo_function import MDOFunction
 from gemseo.core.mdo_functions.mdo_function import OutputType
 from gemseo.core.mdo_functions.mdo_function import WrappedFunctionType
 from gemseo.core.serializable import Serializable
+from gemseo.utils.compatibility.scipy import sparse_classes
 from gemseo.utils.derivatives.factory import GradientApproximatorFactory
 
 if TYPE_CHECKING:
@@ -367,6 +368,10 @@ class ProblemFunction(MDOFunction, Serializable):
             DesvarIsNan: If the value is a function input containing a NaN.
             FunctionIsNan: If the value is a function output containing a NaN.
         """
+        if isinstance(value, sparse_classes):
+            # The NaN values of a sparse array are among its stored coefficients.
+            value = value.tocoo().data
+
         if stop_if_nan and isnan(value).any():
             if function_name:
                 msg = (
